@@ -59,6 +59,22 @@ func namesakeB() interface{} {
 	return Reading{}
 }
 
+// Pts: slices of a struct without any pointer in it (numbers and bools only):
+// memory for such arrays needs no pointer map and may be obtained differently.
+type Pt struct {
+	X int64   `plenc:"1"`
+	Y int64   `plenc:"2"`
+	W float64 `plenc:"3"`
+	F bool    `plenc:"4"`
+	U uint32  `plenc:"5"`
+}
+
+type Pts struct {
+	N int  `plenc:"1"`
+	P []Pt `plenc:"2"`
+	Q []Pt `plenc:"3"`
+}
+
 // MapTree: a type that refers to itself through a map value (and nothing else).
 type MapTree struct {
 	V    int                `plenc:"1"`
@@ -475,6 +491,8 @@ func init() {
 	reg("Wide", "F1", Wide{})
 	reg("Ptrs", "F1", Ptrs{})
 	reg("Zeros", "F1", Zeros{})
+	reg("Pts", "F1", Pts{})
+	reg("[]Pt", "F1", []Pt{})
 	reg("[]Empty", "F1", []Empty{})
 	reg("Inner", "F1", Inner{})
 	reg("Small", "F1", Small{})
